@@ -333,16 +333,28 @@ def hyp_status(c, eps):
 
 
 def regenerate(ctx):
+    """Regenerate coq/gen/Scales.v (mel scale of the Fbank value model) and coq/gen/C06Index.v
+    (index arithmetic of the eight response methods).  Returns False if the development
+    cannot be rebuilt against the current source."""
+    import filters_c06 as gen_idx
     import scales as gen_scales
     from pyexpr import Unsupported
 
+    ok = True
     try:
         gen_scales.main(os.path.join(C.SRC, "scales.py"), os.path.join(C.COQ, "gen", "Scales.v"))
-        return True
     except (Unsupported, SyntaxError, OSError) as e:
         ctx.fail("translator gen/scales.py no longer recognises scales.py: %s" % e,
                  dict(correspondence="gen/scales.py -> coq/gen/Scales.v", error=str(e)), kind="tie", no_input=True)
-        return False
+        ok = False
+    try:
+        gen_idx.main(os.path.join(C.SRC, "filters.py"), os.path.join(C.COQ, "gen", "C06Index.v"))
+    except (Unsupported, SyntaxError, OSError, AttributeError, IndexError) as e:
+        # the generated file is left as it was, so the proofs still build; the tie is reported broken
+        ctx.fail("translator gen/filters_c06.py no longer recognises the index arithmetic of filters.py: %s" % e,
+                 dict(correspondence="gen/filters_c06.py -> coq/gen/C06Index.v", error=str(e)), kind="tie", no_input=True)
+        ctx.translator_failed = True
+    return ok
 
 
 REQ_Z = ("From Coq Require Import ZArith List Bool QArith.\nFrom Verif Require Import C06.Model.\n"
@@ -386,6 +398,7 @@ def _run(ctx):
     pr = C.proof_step(ctx) if ok_gen else None
     ctx.cov["trusted_base"] += [
         "translator /verif/gen/scales.py + gen/pyexpr.py (mel scale used by the Fbank value model)",
+        "translator /verif/gen/filters_c06.py (Python ast -> Z/Q index expressions, coq/gen/C06Index.v; tied to the model by C06/GenTie.v)",
         "Interval 4 (interval tactic) for the certified value comparisons",
         "harness/c06.py: generators, tag/value comparison rules, recipe transcription used by the search",
     ]
@@ -426,7 +439,18 @@ def _run(ctx):
             for i in range(bank.num_filts):
                 for w in widths_for(ctx, bank, i, ctx.scale(5, 10)):
                     cases.append(dict(desc=d, i=i, w=w, kind=kind, bank=bank))
-    # adversarial exact-hit banks (edges on bin centres; Nyquist edge)
+    # exhaustive small scope: every width 2..64 for one filter of a few banks of each kind
+    for kind in ("tri", "fbank", "gabor", "gt"):
+        for _ in range(ctx.scale(1, 6)):
+            d = random_bank_desc(ctx, kind)
+            bank = build(mods, d, np)
+            if bank is None:
+                continue
+            i = r.randrange(bank.num_filts)
+            ws = range(2, 65) if ctx.thorough else range(2, 65, 3)
+            for w in ws:
+                cases.append(dict(desc=d, i=i, w=w, kind=kind, bank=bank))
+            ctx.count("bank:all-small-widths-" + kind)
     for rate, w, k in [(8000, 16, 2), (16000, 512, 32), (8000, 77, 37), (16000, 400, 5), (44100, 441, 3), (8000, 81, 20)]:
         for kind in ("tri", "fbank"):
             for an in (False, True):
@@ -471,6 +495,7 @@ def _run(ctx):
     tri_cases = [c for c in cases if c["kind"] in ("tri", "fbank") and c["obs"] is not None]
     cpx_cases = [c for c in cases if c["kind"] in ("gabor", "gt") and c["obs"] is not None]
     ok_model, out = C.coq_make(["C06/Model.v"]) if ok_gen else (False, "")
+    ok_r, out_r = C.coq_make(["lib/C06_Cert.v"]) if ok_model else (False, out)
     mism = []
     if ok_model:
         def tri_inputs(c):
@@ -752,9 +777,8 @@ def _run(ctx):
             if not have_priv[kind]:
                 ctx.count("values:%s skipped (private constants not available)" % kind)
         if goals:
-            ok_r, out = C.coq_make(["lib/C06_Cert.v"])
             if not ok_r:
-                ctx.fail("value model no longer compiles", dict(correspondence="C06/ModelR.v, lib/C06_Cert.v", log_tail=out[-1500:]), kind="tie", no_input=True)
+                ctx.fail("value model no longer compiles", dict(correspondence="C06/ModelR.v, lib/C06_Cert.v", log_tail=out_r[-1500:]), kind="tie", no_input=True)
             else:
                 nshard = 12
                 # expensive goals first, dealt round-robin so that the shards cost about the same
